@@ -196,7 +196,44 @@ def mf_tie(rep: Report, rng, tier: str) -> None:
             rep.corr_break(f"math_functions.{nc.info['function']} differs from the model: {nc.detail}", nc.info)
 
 
+def deep_spellings(rep: Report) -> None:
+    """the two spellings of the point (`at(Point(x=t))`, `at(t)`) on chains nested a few hundred levels deep, under
+    the interpreter's *default* recursion limit (the harness itself runs with a raised one): a spelling that needs
+    several stack frames per level more than the other (by rendering the expression, say) fails with RecursionError
+    long before the other does"""
+    import inspect
+    import sys
+    from ..core import X
+    x = X.Variable("x")
+    for depth in (300, 450, 600):
+        chains = {"Minus": x, "Add": x, "Negation": x, "Multiply": x, "Sine": x}
+        for _ in range(depth):
+            chains["Minus"] = X.Minus(chains["Minus"], X.Constant(1.0))
+            chains["Add"] = X.Add(chains["Add"], X.Constant(1.0))
+            chains["Negation"] = X.Negation(chains["Negation"])
+            chains["Multiply"] = X.Multiply(X.Constant(1.0), chains["Multiply"])
+            chains["Sine"] = X.Sine(chains["Sine"])
+        for name, e in chains.items():
+            old = sys.getrecursionlimit()
+            try:
+                sys.setrecursionlimit(1000 + len(inspect.stack(0)))
+                by_point = call(e.at, wire.build_point("1 x x4000000000000000"))
+                by_number = call(e.at, 2.0)
+            finally:
+                sys.setrecursionlimit(old)
+            rep.evaluations += 2
+            rep.count("deep-spellings", f"{name}:{depth}:{by_point[0]}/{by_number[0]}")
+            if by_point[0] == "ok" and by_number[0] == "ok":
+                if by_point[1] != by_number[1]:
+                    rep.violation(f"at(Point(x=2.0)) = {by_point[1]!r} but at(2.0) = {by_number[1]!r} on a {name} chain {depth} deep", {"chain": name, "depth": depth})
+            elif (by_point[0] == "ok") != (by_number[0] == "ok") and "recursion" in (by_point[1], by_number[1]):
+                rep.violation(f"a {name} chain nested {depth} deep evaluates through one spelling of the point and exhausts the default recursion "
+                              f"limit through the other: at(Point) -> {by_point!r}, at(number) -> {by_number!r}"[:500], {"chain": name, "depth": depth})
+
+
 def run(rep: Report, rng, tier: str, known: dict, search: bool = False) -> None:
+    if not search:
+        deep_spellings(rep)
     cases = ([] if search else k3_corpus()) + gen_cases(rng, tier)
     check_cases(cases, rep, known)
     mf_tie(rep, rng, tier)
